@@ -15,7 +15,8 @@ RULE = ('cases = (prior memory, start address, data) for Game.write_cart_data ag
         'sequences. Non-trivial = the write is non-empty and starts or ends on a region boundary '
         'or spans >= 2 regions or is an overflow that must be rejected; distinct by (start, len, '
         'hash of data and prior memory).'
-        " Histories also replace section objects (g.map = Map.from_bytes(...), as the loaders and build do) and copy memory inside the cart (data = the live buffer another region's to_bytes() returns); a twin cart made with from_bytes(to_bytes()) must keep its memory.")
+        " Histories also replace section objects (g.map = Map.from_bytes(...), as the loaders and build do) and copy memory inside the cart (data = the live buffer another region's to_bytes() returns); a twin cart made with from_bytes(to_bytes()) must keep its memory."
+        ' Lengths include those of other PICO-8 memory images (0x7fff, 0x8000, 0x8001, 0x10000) at start addresses 0, 1, 0x2000, 0x4200, 0x42ff, 0x4300.')
 ASSUMPTIONS = ['memory map gfx 0x0000, map 0x2000, gff 0x3000, music 0x3100, sfx 0x3200, end 0x4300 '
                '(PICO-8 manual)', 'start addresses are 0x0000..0x42ff (or beyond, for the reject clause); '
                'negative addresses are out of contract and not generated']
